@@ -329,6 +329,10 @@ class J1939_21:
                 return
 
             num_packages_all = self._snd_buffer[buffer_hash]["num_packages"]
+            if self._snd_buffer[buffer_hash]['next_packet_to_send'] >= num_packages_all:
+                # all packets are on the bus already (we are waiting for the EOM_ACK): there is nothing
+                # left to clear; entering SENDING_IN_CTS here would never leave it again
+                return
             if num_packages > num_packages_all:
                 logger.debug("CTS: Allowed more packets %d than complete transmission %d", num_packages, num_packages_all)
                 num_packages = num_packages_all
